@@ -573,8 +573,27 @@ func (c *checker) histories() {
 		"calls_differing": int(reuseDiff),
 		"shortest_example": reuseExample,
 	})
-	for i := 0; i < 3 && i < nA; i++ {
-		r.Sample(map[string]string{"kind": "history-call", "call": c.names[i*3%nA], "class": c.baseline[i*3%nA].Class, "output_hash": c.baseline[i*3%nA].Out})
+	// samples: three of the executed histories, written out call by call
+	for k := 0; k < 3; k++ {
+		i := int((r.Seed + int64(k)*int64(total/3+1) + 1234567) % int64(total))
+		if i < 0 {
+			i = -i
+		}
+		calls := make([]int, maxLen)
+		x := i
+		for j := maxLen - 1; j >= 0; j-- {
+			calls[j] = x % nA
+			x /= nA
+		}
+		resp, ok := c.do(c.plain, Req{Op: "hist", Family: "fresh", Alphabet: c.alphabet, Calls: calls}, false)
+		if !ok || len(resp.Obs) != len(calls) {
+			return
+		}
+		var steps []string
+		for j, o := range resp.Obs {
+			steps = append(steps, fmt.Sprintf("%s -> %s out=%s same-as-alone=%v state=%s", c.names[calls[j]], o.Class, o.Out[:8], o.Out == c.baseline[calls[j]].Out, o.TState[:8]))
+		}
+		r.Sample(map[string]string{"kind": "history", "history": c.histName(calls), "initial_state": resp.TInit[:8], "calls": strings.Join(steps, " ; ")})
 	}
 	if fixpointAt < 0 {
 		c.setCap("the hidden state space did not close within the history bound")
